@@ -179,7 +179,171 @@ func load(dir string, env, patterns []string, overlay map[string][]byte) (*Progr
 		}
 		return a.Pos() < b.Pos()
 	})
+	recordFuncVars(prog, rootSet)
 	return p, nil
+}
+
+// FuncVars: package-level variables of the tree that hold a function from their initialiser on and are never
+// written again nor have their address taken (var openFile = os.Open — a seam for tests). A call through such a
+// variable is a call of that function.
+var FuncVars = map[*ssa.Global]*ssa.Function{}
+
+func recordFuncVars(prog *ssa.Program, rootSet map[*types.Package]bool) {
+	type use struct {
+		fn     *ssa.Function
+		stores int
+		other  bool
+	}
+	uses := map[*ssa.Global]*use{}
+	for fn := range ssautil.AllFunctions(prog) {
+		for _, b := range fn.Blocks {
+			for _, in := range b.Instrs {
+				for _, op := range in.Operands(nil) {
+					g, ok := (*op).(*ssa.Global)
+					if !ok || g.Pkg == nil || !rootSet[g.Pkg.Pkg] {
+						continue
+					}
+					if _, isFn := g.Type().(*types.Pointer).Elem().Underlying().(*types.Signature); !isFn {
+						continue
+					}
+					u := uses[g]
+					if u == nil {
+						u = &use{}
+						uses[g] = u
+					}
+					switch t := in.(type) {
+					case *ssa.Store:
+						if t.Addr == ssa.Value(g) {
+							u.stores++
+							v := t.Val
+							if ct, ok := v.(*ssa.ChangeType); ok {
+								v = ct.X
+							}
+							if mc, ok := v.(*ssa.MakeClosure); ok && len(mc.Bindings) == 0 {
+								v = mc.Fn
+							}
+							if f, ok := v.(*ssa.Function); ok && fn.Synthetic != "" && fn.Name() == "init" {
+								u.fn = f
+							} else {
+								u.other = true
+							}
+						} else {
+							u.other = true // the variable's address is stored somewhere
+						}
+					case *ssa.UnOp:
+						if t.Op != token.MUL {
+							u.other = true
+						}
+					case *ssa.DebugRef:
+					default:
+						u.other = true
+					}
+				}
+			}
+		}
+	}
+	for g, u := range uses {
+		if u.fn != nil && u.stores == 1 && !u.other {
+			FuncVars[g] = u.fn
+		}
+	}
+	// fields: every store into the field, anywhere, stores the same function (set by the one constructor)
+	type fuse struct {
+		fn    *ssa.Function
+		mixed bool
+	}
+	fields := map[string]*fuse{}
+	for fn := range ssautil.AllFunctions(prog) {
+		for _, b := range fn.Blocks {
+			for _, in := range b.Instrs {
+				st, ok := in.(*ssa.Store)
+				if !ok {
+					continue
+				}
+				fa, ok := st.Addr.(*ssa.FieldAddr)
+				if !ok {
+					continue
+				}
+				key, ok := FuncFieldKey(fa.X.Type(), fa.Field)
+				if !ok {
+					continue
+				}
+				u := fields[key]
+				if u == nil {
+					u = &fuse{}
+					fields[key] = u
+				}
+				v := st.Val
+				if ct, ok := v.(*ssa.ChangeType); ok {
+					v = ct.X
+				}
+				if mc, ok := v.(*ssa.MakeClosure); ok && len(mc.Bindings) == 0 {
+					v = mc.Fn
+				}
+				f, isFn := v.(*ssa.Function)
+				switch {
+				case !isFn:
+					u.mixed = true
+				case u.fn == nil:
+					u.fn = f
+				case u.fn != f:
+					u.mixed = true
+				}
+			}
+		}
+	}
+	for k, u := range fields {
+		if u.fn != nil && !u.mixed {
+			FuncFields[k] = u.fn
+		}
+	}
+}
+
+// FuncFields: unexported function-typed fields of structures of the tree into which only one function is ever
+// stored (linter{println: fmt.Fprintln}); keyed by FuncFieldKey.
+var FuncFields = map[string]*ssa.Function{}
+
+// FuncFieldKey names field i of the structure ptrT points to, when that is an unexported field of function type of
+// a named structure type.
+func FuncFieldKey(ptrT types.Type, i int) (string, bool) {
+	pt, ok := ptrT.Underlying().(*types.Pointer)
+	if !ok {
+		return "", false
+	}
+	nt, ok := pt.Elem().(*types.Named)
+	if !ok {
+		return "", false
+	}
+	st, ok := nt.Underlying().(*types.Struct)
+	if !ok || i >= st.NumFields() || st.Field(i).Exported() {
+		return "", false
+	}
+	if _, isFn := st.Field(i).Type().Underlying().(*types.Signature); !isFn {
+		return "", false
+	}
+	return nt.String() + "." + st.Field(i).Name(), true
+}
+
+// Callee: the function a call instruction calls when that is known without a call graph — a static callee, or the
+// function held by a write-once package variable the call goes through.
+func Callee(c *ssa.CallCommon) *ssa.Function {
+	if f := c.StaticCallee(); f != nil {
+		return f
+	}
+	if c.IsInvoke() {
+		return nil
+	}
+	if ld, ok := c.Value.(*ssa.UnOp); ok && ld.Op == token.MUL {
+		if g, ok := ld.X.(*ssa.Global); ok {
+			return FuncVars[g]
+		}
+		if fa, ok := ld.X.(*ssa.FieldAddr); ok {
+			if k, ok := FuncFieldKey(fa.X.Type(), fa.Field); ok {
+				return FuncFields[k]
+			}
+		}
+	}
+	return nil
 }
 
 func fnPkg(fn *ssa.Function) *types.Package {
